@@ -157,6 +157,11 @@ pub fn make_vmdata<const N: usize>(p: &Prog) -> Result<VmData<N>, String> {
     v.deserialized::<VmData<N>>().map_err(|e| format!("inject: {e:?}"))
 }
 
+/// A copy of a real `VmData<N>` (which is not `Clone`) through the exact-float serializer
+pub fn clone_vmdata<const N: usize>(d: &VmData<N>) -> VmData<N> {
+    Value::serialized(d).unwrap().deserialized::<VmData<N>>().unwrap()
+}
+
 /// What a real `VmData<N>` contains
 #[derive(Clone, Debug)]
 pub struct TapeRec {
